@@ -61,7 +61,9 @@ def cmd(rng, hdr, scal=False, prevopts=None, prevfmt=2):
     c = {"op": "header", "sor": hdr["k"] == "sor", "scal": scal, "hdr": hdr, "tail": [rng.randrange(256) for _ in range(4)]}
     if prevopts is not None:
         c["prevopts"] = prevopts
-        c["prev"] = {"optnames": prevopts, "fmt": prevfmt, "w": 16, "h": 16, "plus": True, "opp": True}
+        # the previous header may itself have been sent without OPPTYPE (a chain of UFEP = 000 headers): the modes in
+        # force are still the ones it reports
+        c["prev"] = {"optnames": prevopts, "fmt": prevfmt, "w": 16, "h": 16, "plus": True, "opp": prevfmt != -1 and rng.random() < 0.5}
     return c
 
 
